@@ -106,9 +106,6 @@ class GeneralOpts:
                 raise ValueError("tx_stmin must be a valid 32 unsigned integer")
             o.optflag |= flags.FORCE_TXSTMIN
             s.setsockopt(SOL_CAN_ISOTP, CAN_ISOTP_TX_STMIN, struct.pack("=L", tx_stmin))
-        else:
-            # Does not make sense to let the user force STmin value without providing it
-            o.optflag &= ~flags.FORCE_TXSTMIN
 
         opt = struct.pack("=LLBBBB", o.optflag, o.frame_txtime, o.ext_address, o.txpad, o.rxpad, o.rx_ext_address)
         s.setsockopt(SOL_CAN_ISOTP, CAN_ISOTP_OPTS, opt)
